@@ -21,6 +21,15 @@ STEPS = ["forward", "calibrate", "calibrate-grad", "freeze", "freeze", "freeze_a
 
 @st.composite
 def cases(draw):
+    c = draw(_cases())
+    if c["model"]["fam"] == "conv" and draw(st.booleans()):
+        # memory-format changes only matter for convolutions and only before the freeze: make them common there
+        c["steps"] = ["channels_last"] + c["steps"]
+    return c
+
+
+@st.composite
+def _cases(draw):
     return {
         "model": draw(M.runnable(feats=[3, 8, 33, 64, 96, 128, 160, 192, 256])),
         "wq": draw(st.sampled_from(sorted(O.QTALL))),
